@@ -1,7 +1,108 @@
 import NpsVerif.Model.HashTable
+import NpsVerif.Model.Scan
 import NpsVerif.Gen.Bridge.ht_hash
+import NpsVerif.Props.C11Assumed
+import NpsVerif.Proofs.CounterDict
+import NpsVerif.Proofs.FastPaths
+/-! Property C12 (`Counter`): totals of counted samples, independence of order and batch splitting,
+and the two fast paths (`_get_flat_indices_fast`, `_broadcast_values_fast`) the counter relies on.
+The table side rests on the refinement theorem `Props.C11.C11_refines`. -/
+open Model Model.HT
+
 namespace Props.C12
-open Model.HT
-/-- sanity instance; the universally quantified theorems are added as they are proved -/
-theorem build_example : ((build [10, 19, 20] (.inr [1, 2, 3]) 3 [1, 0, 2]).map (·.buckets)) = some [[], [19, 10], [20]] := by decide
+open Props.C11
+
+/-- batches of samples as a history: count, count, … then one lookup of all keys -/
+def countOps (batches : List (List Int)) : List Op := batches.map Op.count
+
+/-- every operation of a counting history followed by a total observation is well-formed -/
+theorem wf_countOps (keys : List Int) (batches : List (List Int)) (last : Op) (hl : WF keys last) :
+    ∀ op ∈ countOps batches ++ [last], WF keys op := by
+  intro op hop
+  rcases List.mem_append.mp hop with h | h
+  · obtain ⟨b, _, rfl⟩ := List.mem_map.mp h
+    trivial
+  · rw [List.mem_singleton.mp h]
+    exact hl
+
+/-- the key order of the initial dictionary is `keys` -/
+theorem dict0_keys (keys : List Int) (vals : Sum Int (List Int)) (hv : ValsOK keys vals) :
+    (dict0 keys vals).map (·.1) = keys := by
+  cases vals with
+  | inl s => simp [dict0, List.map_map, Function.comp_def]
+  | inr vs =>
+    have : vs.length = keys.length := hv
+    exact List.map_fst_zip (by omega)
+
+/-- totals: initial value + number of occurrences in all samples so far; non-keys are ignored -/
+theorem C12_totals (keys : List Int) (hnd : keys.Nodup) (vals : Sum Int (List Int)) (hv : ValsOK keys vals)
+    (mod : Nat) (hm : 0 < mod) (args : List Nat) (hs : IsSortingPerm args (keys.map (hashOf mod)))
+    (batches : List (List Int)) :
+    ∃ t, build keys vals mod args = some t ∧
+      (Model.HT.run t (countOps batches ++ [.getVec keys])).getLast? =
+        some (.vals (some ((dict0 keys vals).map (fun p => p.2 + ((batches.flatten.count p.1 : Nat) : Int))))) := by
+  obtain ⟨t, hb, hr⟩ := C11_refines keys hnd vals hv mod hm args hs
+    (countOps batches ++ [.getVec keys]) (wf_countOps keys batches (.getVec keys) trivial)
+  refine ⟨t, hb, ?_⟩
+  rw [hr]
+  have hk := dict0_keys keys vals hv
+  have := Spec.Dict.run_counts_getVec (dict0 keys vals) (by rw [hk]; exact hnd) batches
+  rw [hk] at this
+  exact this
+
+/-- the totals depend only on the multiset of samples: order and batch-splitting are irrelevant -/
+theorem C12_order_split_invariant (keys : List Int) (hnd : keys.Nodup) (vals : Sum Int (List Int)) (hv : ValsOK keys vals)
+    (mod : Nat) (hm : 0 < mod) (args : List Nat) (hs : IsSortingPerm args (keys.map (hashOf mod)))
+    (b1 b2 : List (List Int)) (hperm : b1.flatten.Perm b2.flatten) :
+    ∃ t, build keys vals mod args = some t ∧
+      (Model.HT.run t (countOps b1 ++ [.items])).getLast? = (Model.HT.run t (countOps b2 ++ [.items])).getLast? := by
+  obtain ⟨t, hb, hr1⟩ := C11_refines keys hnd vals hv mod hm args hs
+    (countOps b1 ++ [.items]) (wf_countOps keys b1 .items trivial)
+  obtain ⟨t', hb', hr2⟩ := C11_refines keys hnd vals hv mod hm args hs
+    (countOps b2 ++ [.items]) (wf_countOps keys b2 .items trivial)
+  have ht : t' = t := by
+    rw [hb] at hb'
+    exact (Option.some.inj hb').symm
+  subst ht
+  refine ⟨t', hb, ?_⟩
+  rw [hr1, hr2]
+  unfold countOps
+  rw [Spec.Dict.run_counts_items, Spec.Dict.run_counts_items, Spec.Dict.addCounts_perm _ _ _ hperm]
+
+/-- the fast gather-index builder equals the general one on views without empty rows -/
+theorem C12_flat_indices_fast (codes : List (Nat × Nat)) (hne : ∀ c ∈ codes, 0 < c.2) :
+    flatIndicesFast codes = viewFlatIndices codes := by
+  rw [flatIndicesFast_eq codes hne, viewFlatIndices_eq]
+
+/-- the fast column broadcast (diff + cumsum) repeats entry i over row i on shapes without empty rows -/
+theorem C12_broadcast_fast (lens : List Nat) (vals : List Int) (hne : ∀ l ∈ lens, 0 < l)
+    (hl : vals.length = lens.length) :
+    broadcastFast lens vals = repeatRows lens vals :=
+  broadcastFast_eq lens vals hne hl
+
+/- non-vacuity of the fast paths: hypotheses hold, rows of length 1 included -/
+example : (∀ c ∈ [(3, 2), (0, 1), (7, 3)], 0 < c.2) ∧
+    flatIndicesFast [(3, 2), (0, 1), (7, 3)] = [3, 4, 0, 7, 8, 9] ∧
+    viewFlatIndices [(3, 2), (0, 1), (7, 3)] = [3, 4, 0, 7, 8, 9] := by decide
+
+example : (∀ l ∈ [2, 1, 3], 0 < l) ∧ ([5, -1, 7] : List Int).length = [2, 1, 3].length ∧
+    broadcastFast [2, 1, 3] [5, -1, 7] = [5, 5, -1, 7, 7, 7] ∧
+    repeatRows [2, 1, 3] ([5, -1, 7] : List Int) = [5, 5, -1, 7, 7, 7] := by decide
+
+/- the hypothesis "no empty row" is needed: with an empty row the fast builders are wrong -/
+example : flatIndicesFast [(3, 2), (6, 0), (7, 1)] ≠ viewFlatIndices [(3, 2), (6, 0), (7, 1)] := by decide
+
+example : broadcastFast [2, 0, 1] [5, -1, 7] ≠ repeatRows [2, 0, 1] ([5, -1, 7] : List Int) := by decide
+
+/- the table side on a concrete instance (no appeal to C11): batches [2,9,2], [], [7,2,5] on keys
+5, 2, 7 (hashes 2, 2, 1 modulo 3, sorted by the permutation [2, 0, 1]) with initial values 10, 0, -1; the sample 9 is not a key and is ignored -/
+example : ((build [5, 2, 7] (.inr [10, 0, -1]) 3 [2, 0, 1]).map
+      (fun t => (Model.HT.run t (countOps [[2, 9, 2], [], [7, 2, 5]] ++ [.getVec [5, 2, 7]])).getLast?)) =
+    some (some (.vals (some [11, 3, 0]))) := by decide
+
+/- that instance satisfies the hypotheses of `C12_totals` -/
+example : ([5, 2, 7] : List Int).Nodup ∧ ValsOK [5, 2, 7] (.inr [10, 0, -1]) ∧
+    IsSortingPerm [2, 0, 1] ([5, 2, 7].map (hashOf 3)) := by
+  unfold IsSortingPerm ValsOK; decide
+
 end Props.C12
